@@ -52,7 +52,7 @@ func NewGroup[T any](
 		originNotFound:          notFound,
 		methodNotAllowedBuilder: methodNotAllowedBuilder,
 		optionsBuilder:          optionsBuilder,
-		options:                 o,
+		options:                 slices.Clone(o), // 不能保留调用方的 o，Group.New 每次都会读取该值。
 		recoverFunc:             opt.recoverFunc,
 	}
 }
